@@ -8,6 +8,7 @@ package inputroot
 
 import (
 	"bytes"
+	"context"
 	"fmt"
 	"sort"
 	"strings"
@@ -125,6 +126,23 @@ func opNaiveArm(kind int) mc.SeqOp {
 	}
 }
 
+// opNaiveCancel: the caller of MergeDirectoryContents (the worker's build
+// loop: client cancelled the action, worker shutting down, deadline) cancels
+// its context at the moment the k-th download of a file blob from now on
+// reaches the CAS. Downloads run one at a time (semaphore of weight 1), so k
+// selects the file; for the last file of the traversal the cancellation
+// arrives when the directory traversal has already finished.
+func opNaiveCancel(k int) mc.SeqOp {
+	return mc.SeqOp{
+		Name:    fmt.Sprintf("arm: the caller's context is cancelled when CAS Get #%d of a file is entered", k),
+		Enabled: func(s any) bool { return s.(*nworld).cas.fault == faultUnused },
+		Do: func(c *mc.SeqCtx, s any) {
+			w := s.(*nworld)
+			w.cas.fault, w.cas.faultKind, w.cas.faultSkip = faultArmed, 3, k-1
+		},
+	}
+}
+
 func opNaiveMerge(i int) mc.SeqOp {
 	return mc.SeqOp{
 		Name:    fmt.Sprintf("action %d: MergeDirectoryContents", i+1),
@@ -133,13 +151,19 @@ func opNaiveMerge(i int) mc.SeqOp {
 			w := s.(*nworld)
 			t := w.trees[i]
 			before := w.cas.fired()
-			err := t.bd.MergeDirectoryContents(ctx, &errLog{}, w.c.dirDigest[0], nil)
+			callerCtx, cancel := context.WithCancel(ctx)
+			w.cas.cancelCaller = cancel
+			err := t.bd.MergeDirectoryContents(callerCtx, &errLog{}, w.c.dirDigest[0], nil)
+			w.cas.mu.Lock()
+			w.cas.cancelCaller = nil
+			w.cas.mu.Unlock()
+			cancel()
 			fired := w.cas.fired() != before
 			c.Logf("  MergeDirectoryContents: %v (injected failure fired: %t)", err, fired)
 			switch {
 			case fired:
 				if err == nil {
-					c.FailP(prop, "naive/fault/swallowed", "MergeDirectoryContents succeeds although a CAS request failed")
+					c.FailP(prop, "naive/fault/swallowed", "MergeDirectoryContents succeeds although a CAS request failed (storage error, or the caller's context was cancelled while a download was in flight): it reports the input root as materialised while a file is missing")
 				}
 			case !w.c.materialisable():
 				if err == nil {
@@ -329,7 +353,7 @@ func naiveKey(s any) string {
 		}
 		b.WriteByte('|')
 	}
-	fmt.Fprintf(&b, "f%d/%d|m%d|", w.cas.fault, w.cas.faultKind, w.mods)
+	fmt.Fprintf(&b, "f%d/%d/%d|m%d|", w.cas.fault, w.cas.faultKind, w.cas.faultSkip, w.mods)
 	if w.noisy {
 		b.WriteString("noisy")
 	} else {
@@ -366,12 +390,21 @@ func naiveFinal(c *mc.SeqCtx, s any) {
 
 func newNaiveSeq(c *compiled, maxFiles int, depth map[string]int) *mc.Seq {
 	ops := []mc.SeqOp{opNaiveArm(1), opNaiveArm(2), opNaiveMerge(0), opNaiveMerge(1)}
+	files := 0
 	for _, p := range c.dirPaths {
 		for _, n := range []string{"a", "b"} {
-			if c.pristineKind(p, n) == kFile && len(ops) < 8 {
-				ops = append(ops, opNaiveReplace(p, n))
+			if c.pristineKind(p, n) == kFile {
+				files++
+				if len(ops) < 8 {
+					ops = append(ops, opNaiveReplace(p, n))
+				}
 			}
 		}
+	}
+	// One cancellation letter per file download that a merge can make
+	// (at most one Get per file path; cache hits make fewer).
+	for k := 1; k <= files && k <= 3; k++ {
+		ops = append(ops, opNaiveCancel(k))
 	}
 	name := "naive/" + c.in.name
 	if maxFiles < 100 {
